@@ -185,9 +185,9 @@ func c19GenCase(r *Rand, tier string) c19Input {
 }
 
 func (c19Driver) Gen(r *Rand, tier string) []json.RawMessage {
-	n := 280
+	n := 420
 	if tier == "thorough" {
-		n = 4200
+		n = 6300
 	}
 	var res []json.RawMessage
 	// fixed seeds: the scenarios the property names, always present
@@ -537,6 +537,17 @@ func (e *c19Env) startLong(kind string) *c19Proc {
 	return p
 }
 
+// the editor script polls for the file: it must never see it empty
+func c19WriteAtomic(path, content string) {
+	tmp := path + ".tmp"
+	if err := os.WriteFile(tmp, []byte(content), 0o644); err != nil {
+		panic(err)
+	}
+	if err := os.Rename(tmp, path); err != nil {
+		panic(err)
+	}
+}
+
 const c19Editor = `#!/bin/sh
 : > "$C19_MARK"
 i=0
@@ -765,10 +776,10 @@ func (c19Driver) Run(raw json.RawMessage) (res Case) {
 				_ = p.cmd.Process.Signal(syscall.SIGTERM)
 			case "finok":
 				h = "HFinOk"
-				_ = os.WriteFile(p.gofile, []byte("ok\n"), 0o644)
+				c19WriteAtomic(p.gofile, "ok\n")
 			case "finerr":
 				h = "HFinErr"
-				_ = os.WriteFile(p.gofile, []byte("fail\n"), 0o644)
+				c19WriteAtomic(p.gofile, "fail\n")
 			default:
 				h = "HKill"
 				p.sig = true
